@@ -39,7 +39,9 @@ def gen(rng, tier):
         sc['hold_end'] = rng.random() < 0.7  # suppliers do not call put_end: consumers stay blocked in get until the stop
     elif rng.random() < 0.2 and qkind != 'simple':
         sc['to_stop'] = {'at': None, 'with_event': True}  # event supplied but never set (ResponsiveQueue path)
-    cfg = swarm(rng, racy=0.2, line=0.4, max_time=300.0)
+    if sc['to_stop'] is not None and qkind in ('queue1', 'queue3') and rng.random() < 0.5:
+        sc['get_delays'] = [rng.choice([1.0, 1.5, 2.5])]  # puts stay blocked on the full queue for longer than the 1 s polling interval
+    cfg = swarm(rng, racy=0.2, line=0.4, max_time=600.0)
     return {'scenario': sc, 'sim': cfg}
 
 
@@ -148,8 +150,9 @@ def run(sim, sc):
         t_stop = sim.now
         ev.set()
         sim.count('stop_requested')
+        patience = 10.0 + (sum(sc['items'][0]) + 2) * (sc['put_delays'][0] + sc['get_delays'][0])
         for th in ths:
-            th.join(10.0)
+            th.join(patience)
         alive = [th.name for th in ths if th.is_alive()]
         if alive and sc.get('hold_end'):
             sim.violation('stop:party-still-blocked-after-stop-request', {'alive': alive})
